@@ -135,6 +135,16 @@ def harness(case, tier):
         c.prove(same_bytes(issued[0]['data'], data), 'ciphertext-is-of-the-original-plaintext', detail=dict(got=issued[0]['data']))
     if n:
         c.prove(not same_bytes(pay_wire['data'], data), 'wire-target-data-is-not-the-plaintext')
+    # the additional authenticated data, constructed independently from the transmitted bundle
+    sb = rfc9171.read_secblock(bcbs[0]['data'])
+    scope = dict((int(k), int(v)) for (k, v) in dict((int(k), v) for (k, v) in sb['params'])[5].items())
+    msg = symcbor.loads(sb['results'][0][0][1])
+    aad = rfc9171.bpsec_cose_aad(b, sb['source'], scope, pay_wire)
+    want = rfc9171.enc(['Encrypt0' if case['mode'] == 'direct' else 'Encrypt', msg[0], aad])
+    if issued:
+        c.prove(same_bytes(issued[0]['aad'], want), 'authenticated-octets-equal-independent-construction',
+                detail=dict(got=issued[0]['aad'], want=want))
+    c.prove(msg[2] is None, 'ciphertext-detached-from-message', detail=repr(msg[2]))
     # no transmitted octet is a function of a plaintext variable
     names = set()
     wbuf = SBuf.of(wire)
